@@ -318,3 +318,31 @@ fn test_empty() {
     let (cw, _) = GenericDataEncoder::codewords(&mut enc).unwrap();
     assert_eq!(cw, vec![ascii::PAD, 175, 70]);
 }
+
+#[cfg(datamatrix_verif)]
+pub(crate) mod verif {
+    use super::*;
+
+    /// State after construction and `use_macro_if_possible()`: codewords so far and the body left to encode.
+    pub fn macro_prefix(data: &[u8], use_macros: bool, fnc1_start: bool) -> (Vec<u8>, Vec<u8>) {
+        let list = SymbolList::default();
+        let mut enc =
+            GenericDataEncoder::with_size(data, &list, EncodationType::all(), fnc1_start);
+        if use_macros {
+            enc.use_macro_if_possible();
+        }
+        (enc.codewords.clone(), enc.data.to_vec())
+    }
+
+    /// Run `add_padding()` on the given codewords for a symbol size, with the encoder in ASCII mode or not.
+    pub fn add_padding(codewords: &[u8], ascii_mode: bool, size: SymbolSize) -> Vec<u8> {
+        let list = SymbolList::default();
+        let mut enc = GenericDataEncoder::with_size(&[], &list, EncodationType::all(), false);
+        enc.codewords = codewords.to_vec();
+        if !ascii_mode {
+            enc.encodation = EncodationType::C40;
+        }
+        enc.add_padding(size);
+        enc.codewords
+    }
+}
